@@ -79,7 +79,8 @@ Record Jcore (r : option (Z * bool)) (s : state) : Prop := mkJ {
   j10 : stopping s = false -> dc s <> DcStale;
   j12 : Forall (cons_ok (generation s) (member s) (cur_assign s)) (consumers s);
   j13 : stopping s = false -> gens s <> [] -> rejoin_needed s = true;
-  j11 : stopping s = true -> rejoin_needed s = false
+  j11 : stopping s = true -> rejoin_needed s = false;
+  j14 : cnt has_s1 (stops s) = 0%nat \/ (cnt adv (gens s) + radv r = 0)%nat
 }.
 
 Definition Stab (s : state) : Prop := stopping s = false -> rejoin_needed s = false -> hb_running s = true.
@@ -111,18 +112,18 @@ Proof.
   - intros H; cbn in H; congruence.
 Qed.
 
-Ltac jdes := match goal with H : Jcore _ _ |- _ => destruct H as [h1 h2 h3 h4 h5 h6 h7 h8 h9 h10 h12 h13 h11] end.
+Ltac jdes := match goal with H : Jcore _ _ |- _ => destruct H as [h1 h2 h3 h4 h5 h6 h7 h8 h9 h10 h12 h13 h11 h14] end.
 Ltac fin := intuition (subst; auto with datatypes; try congruence; try discriminate; try lia).
 Tactic Notation "clr" ident(x) ident(a) ident(b) ident(c) :=
   try (tryif first [constr_eq x a | constr_eq x b | constr_eq x c] then idtac else clear x).
 Tactic Notation "keep" ident(a) ident(b) ident(c) :=
   clr h1 a b c; clr h2 a b c; clr h3 a b c; clr h4 a b c; clr h5 a b c; clr h6 a b c; clr h7 a b c;
-  clr h8 a b c; clr h9 a b c; clr h10 a b c; clr h11 a b c; clr h12 a b c; clr h13 a b c.
+  clr h8 a b c; clr h9 a b c; clr h10 a b c; clr h11 a b c; clr h12 a b c; clr h13 a b c; clr h14 a b c.
 Tactic Notation "jq" ident(a) ident(b) ident(c) :=
   first [ assumption | solve [keep a a a; fin] | solve [keep a b b; fin] | solve [keep a b c; fin] | idtac ].
 Ltac jgo := jdes; prj; constructor; prj; unfold pristine in *; prj; rewrite ?cnt_cons, ?cnt_nil, ?cnt_app in *; cbn [radv b2n] in *;
   [ jq h1 h3 h2 | jq h2 h3 h7 | jq h3 h2 h1 | jq h4 h5 h6 | jq h5 h8 h6 | jq h6 h5 h4 | jq h7 h2 h8 | jq h8 h13 h7 | jq h9 h10 h11 | jq h10 h9 h11
-   | jq h12 h2 h3 | jq h13 h8 h11 | jq h11 h13 h8 ].
+   | jq h12 h2 h3 | jq h13 h8 h11 | jq h11 h13 h8 | jq h14 h4 h2 ].
 (* last resort: every clause at once (slow) *)
 Ltac jfin := try solve [fin].
 
@@ -131,7 +132,7 @@ Proof.
   intros r s Hr H. ds s. unf. destruct r as [[gid b]|]; [|congruence]. destruct b; jgo.
 Qed.
 
-Lemma add_gen_J : forall gid b g s, Jcore (Some (gid, b)) s -> g_id g = gid -> (adv g = true -> consumers s = [] /\ (b = true \/ stopping s = false)) ->
+Lemma add_gen_J : forall gid b g s, Jcore (Some (gid, b)) s -> g_id g = gid -> (adv g = true -> consumers s = [] /\ (b = true \/ (stopping s = false /\ stop_requested s = false))) ->
   (stopping s = false -> rejoin_needed s = true) -> Jcore None (add_gen g s).
 Proof.
   intros gid b g s H Hg Ha Hn. ds s. unf. destruct b; destruct (adv g) eqn:Eg; jgo; rewrite ?Eg in *; cbn [b2n] in *; jfin.
@@ -161,7 +162,7 @@ Proof.
   - split; [assumption|]. apply (j1 _ _ H G).
 Qed.
 
-Lemma send_join_J : forall gid b s, Jcore (Some (gid, b)) s -> consumers s = [] -> (b = true \/ stopping s = false) ->
+Lemma send_join_J : forall gid b s, Jcore (Some (gid, b)) s -> consumers s = [] -> (b = true \/ (stopping s = false /\ stop_requested s = false)) ->
   (stopping s = false -> rejoin_needed s = true) -> Jcore None (fst (send_join gid s)).
 Proof.
   intros gid b s H Hc Hb Hn.
